@@ -1,3 +1,9 @@
 // Pasted into protocols/identify/src/behaviour.rs (mod verif) under cfg(kani).
 #[allow(unused_imports)]
 use super::*;
+
+pub(crate) mod c46 {
+    #[allow(unused_imports)]
+    use super::super::*;
+    include!(concat!(env!("LIBP2P_VERIF"), "/units/C46/matches.rs"));
+}
